@@ -520,6 +520,13 @@ def run(ck):
     ck.ok("C16.8", "Peak:stores", "src/correlation/peak.py", "constructor stores inspected", "")
     blur_keeps_length(ck)
     sequence_is_blurred_vectorisation(ck)
+    if ck.wants("C16.12"):
+        from .c05 import worker_gives_up_only_without_seeds as _wg16
+        _wg16(ck, "C16.12")
+    ck.clause("C16.11", "both strands are correlated with the same settings (as C11.4 :same-arguments): a reverse-strand call that leaves "
+                        "peaksCount to a default keeps another number of peaks per correlation than the forward call")
+    if ck.wants("C16.11"):
+        _c11.run(_RV16(ck, {"C11.4": "C16.11"}, only_constructs=(":same-arguments",)))
     ck.clause("C16.10", "the top-count seeds are chosen once over the correlations of all references (as C05.9): per-reference selections "
                         "merged afterwards are not the top peaks")
     from .c05 import seeds_over_all_references as _soar16
